@@ -30,6 +30,7 @@ var hsConfigs = []hsConfig{
 	{"comp-empty", []string{"gzip"}, []string{"none"}, []string{"guest"}},
 	{"no-schemes", []string{"none"}, []string{"none", "tls"}, []string{}},
 	{"dup-options", []string{"none", "none"}, []string{"none", "tls", "tls"}, []string{"guest", "guest"}},
+	{"comp-extra-negotiated", []string{"none", "gzip"}, []string{"none", "tls"}, []string{"guest"}},
 }
 
 var hsAuthPatterns = [][]interface{}{
